@@ -298,6 +298,45 @@ static void sweep_xor_within(const RunFn &run, bool all_dests) {
     s.exhaustive = true;
     s.extra["xor_tables"] = ref::N_XOR_SHAPES;
 }
+// C05 (d): every table, every erasure set below hd, payload sizes that are and are not multiples of 16;
+// decode + reconstruct of every lost index and (thorough: every index) one present index
+static Result run_c05(const Case &c) {
+    Result r = run_codec(c);
+    Config g = cfg_from(c);
+    int missing = g.n() - __builtin_popcountll(maskof(c.ints("present"), g.n()));
+    bool parity_dest = false;
+    for (int d : c.ints("dests")) if (d >= g.k) parity_dest = true;
+    r.nontrivial = missing >= 2 || parity_dest;
+    return r;
+}
+static void sweep_xor_c05() {
+    static const int pays[] = {4, 8, 12, 20, 36, 100, 4100};
+    bool th = opts().tier == "thorough";
+    int shard = (int)opts().shard, ns = (int)opts().nshards, counter = 0;
+    for (int si = 0; si < ref::N_XOR_SHAPES; si++) {
+        const ref::XorShape &sh = ref::XOR_SHAPES[si];
+        Config g; g.backend = ref::B_XOR; g.k = sh.k; g.m = sh.m; g.hd = sh.hd; g.w = 0; g.ct = (si & 1) ? CT_CRC32 : CT_NONE;
+        int n = g.n();
+        for (int e = 0; e < sh.hd; e++)
+            for_subsets(n, e, [&](const std::vector<int> &E) {
+                if ((counter++ % ns) != shard) return;
+                for (int pi = 0; pi < 7; pi++) {
+                    if (!th && pi != (counter % 7)) continue;
+                    if (th && pays[pi] == 4100 && (counter % 16)) continue;   // large payload on a 1/16 sample
+                    Case c = base_case(g, (size_t)g.k * pays[pi], 70000 + counter + pi);
+                    present_from_erased(c, n, E);
+                    c.set("force", 0); c.set("decode", 1);
+                    std::vector<int> dests(E.begin(), E.end());
+                    if (th) { dests.clear(); for (int d = 0; d < n; d++) dests.push_back(d); }
+                    else { int d = counter % n; if (std::find(E.begin(), E.end(), d) == E.end()) dests.push_back(d); }
+                    c.setv("dests", dests);
+                    sweep_case(c, run_c05);
+                }
+            });
+    }
+    stats().exhaustive = true;
+    stats().extra["xor_tables"] = ref::N_XOR_SHAPES;
+}
 // RS (and ISA): every (k,m) once with |E| = m, half data lost
 static void sweep_rs_boundary(const RunFn &run, int backend, bool parity_dests) {
     int shard = (int)opts().shard, ns = (int)opts().nshards, counter = 0;
@@ -484,6 +523,7 @@ int main(int argc, char **argv) {
     h.mode("c03", [] { rc_property("C03 reconstruct fidelity", gen_c03, run_c03); }, run_c03);
     h.mode("c03_xor_sweep", [] { sweep_xor_within(run_c03, opts().tier == "thorough"); }, run_c03);
     h.mode("c03_rs_sweep", [] { sweep_rs_boundary(run_c03, ref::B_RS, true); }, run_c03);
+    h.mode("c05_decode_sweep", sweep_xor_c05, run_c05);
     h.mode("c20", [] { rc_property("C20 forced checks", gen_c20, run_c20); }, run_c20);
     return harness_main(argc, argv, h);
 }
